@@ -473,20 +473,20 @@ def replay_case(prop, path):
     acc = Acc(prop, 0)
     signal.signal(signal.SIGALRM, _on_alarm)
     try:
-        acc.begin(rec["case"])
-        guarded_check(mod, rec["case"], acc)
-        if not bad_of(acc) and rec.get("shard") is not None and hasattr(mod, "cases") and not hasattr(mod, "run_shard"):
-            acc = Acc(prop, 0)
+        if rec.get("shard") is not None and hasattr(mod, "cases") and not hasattr(mod, "run_shard"):
+            # Mode I: replay the shard's cases up to and including the recorded one, in enumeration order (each on fresh objects).
+            # A case that fails on its own fails here too; one that needs process-global state left by earlier cases needs them.
             target = jdump(rec["case"])
-            for i, case in enumerate(mod.cases(rec["shard"], rec.get("tier", "quick"))):
+            for case in mod.cases(rec["shard"], rec.get("tier", "quick")):
                 hit = jdump(case) == target
                 sub = acc if hit else Acc(prop, 0)
                 sub.begin(case)
                 guarded_check(mod, case, sub)
                 if hit:
-                    for f in acc.failures:
-                        f["note"] = (f.get("note") or "") + " [reproduced only after the preceding cases of its shard: process-global state]"
                     break
+        else:
+            acc.begin(rec["case"])
+            guarded_check(mod, rec["case"], acc)
     finally:
         signal.setitimer(signal.ITIMER_REAL, 0)
     return (1 if bad_of(acc) else 0), acc.failures
